@@ -21,7 +21,7 @@ EXPLANATION = (
     "deleted instances, and pass 1 appends with the parsed state; (R3) in ReadInstance every ChangeState() call is "
     "guarded (on every path) by a test that excludes WORKING_SESSION, so the state recorded in the file is kept; "
     "(R4) Read/Append/WriteWorkingFile set the file type before and reset it after their work. "
-    "Not decided: population equality and byte-for-byte stability of the second save.")
+    "(R2b) both passes accept the state letter under the same condition and then consume the same sequence of stream operations. (R6) a cleared manager is recognised as empty by STEPfile::SetFileIdIncrement (shared with C14 R6). Not decided: population equality and byte-for-byte stability of the second save.")
 
 
 def state_enum(prog):
